@@ -1034,6 +1034,8 @@ func (rn *runner) runBehaviour(b behaviour) {
 	smC, gsC := newConsumer("StateMachine"), newConsumer("Gossip")
 	// the rounds the mirror left by a nil commit, with the votes that justified it, until gossip saw them
 	var pendingNil []tmconsensus.VersionedRoundView
+	// diverged: the real code left the model's prediction; the rest of the behaviour is a free run
+	diverged := false
 
 	for i, st := range b.Steps {
 		rn.nSteps++
@@ -1046,6 +1048,25 @@ func (rn *runner) runBehaviour(b behaviour) {
 		panicked := ""
 		var fetch [][2]string
 		needK := true
+
+		if diverged {
+			// free run: only network inputs and consumer reads are delivered; the state machine's own calls are
+			// bound by a contract that the model enforced (it never runs ahead of the mirror), and a restart needs
+			// the model's crash point
+			switch st.Op {
+			case "Vote", "PH", "Replay":
+			case "RecvSM":
+				if prevK == nil || prevK.SMOut.None {
+					continue
+				}
+			case "RecvGossip":
+				if prevK == nil || prevK.GSOut.None {
+					continue
+				}
+			default:
+				continue
+			}
+		}
 
 		switch st.Op {
 		case "Boot", "Restart":
@@ -1349,7 +1370,9 @@ func (rn *runner) runBehaviour(b behaviour) {
 		_ = fetch
 
 		// ---- expected panic / death
-		if st.Pan != "" || panicked != "" {
+		if diverged && panicked == "" {
+			// free run: the model's expectation of a panic no longer applies
+		} else if st.Pan != "" || panicked != "" {
 			rn.out.Emit(vc.M{"kind": "panic", "beh": b.ID, "step": i, "op": st.Op, "args": st.Args,
 				"expected": st.Pan, "got": panicked})
 			if st.Pan != "" && panicked == "" {
@@ -1364,7 +1387,7 @@ func (rn *runner) runBehaviour(b behaviour) {
 
 		// ---- result
 		expRes := resString(st.Res)
-		if st.CrashAt == 0 {
+		if st.CrashAt == 0 && !diverged {
 			switch st.Op {
 			case "Vote", "PH", "Replay":
 				if expRes != gotRes {
@@ -1440,6 +1463,9 @@ func (rn *runner) runBehaviour(b behaviour) {
 		}
 
 		// ---- crash injection: keep only the first CrashAt store writes of this step
+		if st.CrashAt > 0 && diverged {
+			break
+		}
 		if st.CrashAt > 0 {
 			made := stores.nPoints() - pointsBefore
 			if made != st.NWrites {
@@ -1501,12 +1527,14 @@ func (rn *runner) runBehaviour(b behaviour) {
 				delete(sm, "hc")
 			}
 		}
-		if jsFull(want) != jsFull(got) {
+		if !diverged && jsFull(want) != jsFull(got) {
 			var d []string
 			diff("", want, got, &d)
 			rn.nMismatch++
 			rn.out.Emit(vc.M{"kind": "mismatch", "beh": b.ID, "step": i, "op": st.Op, "args": st.Args, "diff": d})
-			return
+			// the model no longer predicts this run: the remaining inputs are still delivered and the
+			// property predicates (which do not depend on the model) keep being evaluated on the real code
+			diverged = true
 		}
 		rn.stateKeys[jsFull(got)] = struct{}{}
 		rn.trace.Emit(vc.M{"beh": b.ID, "step": i, "op": st.Op, "res": gotRes, "st": got})
